@@ -298,10 +298,10 @@ static Outcome runStartup(const KV& c)
             other.fmg       = c.getI("prev_fmg", 1);
             other.max_its   = 3;
             other.extrapolation = (int)c.getI("prev_extrapolation", 0);
-            other.applyOptions(*s);
+            other.applyChanged(*s, cfg);
             s->setup();
             s->solve();
-            cfg.applyOptions(*s);
+            cfg.applyChanged(*s, other);
         }
         s->setup();
         if (history == 3) {
@@ -311,9 +311,9 @@ static Outcome runStartup(const KV& c)
             first.max_its   = (int)c.getI("prev_its", 40);
             first.rel_tol   = 1e-9;
             first.abs_tol   = 1e-12;
-            first.applyOptions(*s);
+            first.applyChanged(*s, cfg);
             s->solve();
-            cfg.applyOptions(*s);
+            cfg.applyChanged(*s, first);
         }
     }
     catch (const std::exception& e) {
